@@ -497,6 +497,7 @@ pub fn c20_one(c: &mut Ctx, fam: Fam, m: &Malformed) {
     c.eval();
     let f = fam.n();
     let b = &m.bytes;
+    crate::alloc::set_current(b, f, 5);
     let t = tn(b[0]);
     // harness consistency: the reference decoder must classify the frame the way the operator declares
     match ref_decode(fam, b) {
@@ -563,7 +564,7 @@ pub fn c20_one(c: &mut Ctx, fam: Fam, m: &Malformed) {
 
 pub fn c20(ctx: &mut Ctx, layer: &str) {
     let n_hosts: usize = match layer {
-        "miri" => if ctx.thorough { 800 } else { 48 },
+        "miri" => if ctx.thorough { 480 } else { 48 },
         "vg" => 300,
         _ => {
             if ctx.thorough {
@@ -582,6 +583,11 @@ pub fn c20(ctx: &mut Ctx, layer: &str) {
                 c.count(&format!("hosts.v{}.{}", fam.n(), TYPE_NAMES[rp.typ() as usize]));
                 out.clear();
                 malformations(r, fam, &host, &mut out);
+                if cfg!(miri) && out.len() > 24 {
+                    // under Miri each frame costs ~1 s: a random subset per host
+                    r.shuffle(&mut out);
+                    out.truncate(24);
+                }
                 for m in &out {
                     c20_one(c, fam, m);
                 }
@@ -655,6 +661,7 @@ pub fn c04_frame(c: &mut Ctx, fam: Fam, b: &[u8], class: &str) {
         return;
     }
     c.eval();
+    crate::alloc::set_current(b, f, 5);
     let t = if b.is_empty() { "EMPTY" } else { tn(b[0]) };
     let case = || fcase(fam, b).p("class", class);
     let pol = match guard(|| dec_poll_bytes(fam, b)) {
